@@ -1,6 +1,6 @@
 (** C07 — render/macro scopes are isolated and block scopes do not leak.
     Model: Core/Render.v (tied to /repo by the C01 and C07 correspondence runs). *)
-From LQ Require Import Core.Render Proofs.Render_proofs Proofs.Render_control Proofs.Render_lambda Proofs.Render_buffer.
+From LQ Require Import Core.Render Proofs.Render_proofs Proofs.Render_control Proofs.Render_lambda Proofs.Render_buffer Proofs.Render_capture.
 
 (** Every node - for, with, include, render, call, capture, if, case ... -
     leaves the stack of block scopes, the loop stack, the current template
@@ -123,3 +123,15 @@ Theorem c07_render_for_is_concatenation_of_isolated_items :
   text (bf r) = text b ++ items_text g (render g ld fuel) body key len nsp its i cc.
 Proof. exact render_for_is_concatenation_of_isolated_items. Qed.
 Print Assumptions c07_render_for_is_concatenation_of_isolated_items.
+
+(** with: `{% with x: e %}{{ x }}{% endwith %}` writes the value [e] has at the
+    caller's context and returns the caller's context IDENTICALLY (not merely
+    frame-equal): the binding of [x] exists only inside the block, whatever [x]
+    was bound to outside - in a block scope, a local, a global or a counter. *)
+Theorem c07_with_binding_lives_only_inside : forall g ld fuel x e v c b,
+  eval (S (S fuel)) c e = EOk v ->
+  (depth_limit g <? scope_size c)%Z = false ->
+  render g ld (S (S (S fuel))) (NWith [(x, e)] [NOutput (EPath x [])]) c b
+  = mk (st (write_value (EOk v) c b)) c (bf (write_value (EOk v) c b)).
+Proof. exact with_then_output. Qed.
+Print Assumptions c07_with_binding_lives_only_inside.
